@@ -10,3 +10,4 @@ import Hannibal.Props.C16Current
 #print axioms Hannibal.C16q_holds
 #print axioms Hannibal.C16q_current
 #print axioms Hannibal.monC16q_lenient
+#print axioms Hannibal.shape16_current
